@@ -28,6 +28,8 @@ class IPSWriter(Writer):
     def write_block_header(self, block: bytes, block_address: int) -> None:
         if self._copier_header:
             block_address += 0x200
+        if block_address == 0x454F46:
+            raise ValueError("IPS cannot represent a record at offset 0x454F46 (it reads as the EOF marker).")
         self.file.write(struct.pack(">BH", block_address >> 16, block_address & 0xFFFF))
         self.file.write(struct.pack(">H", len(block)))
 
